@@ -379,13 +379,60 @@ OTHER_EPW = [('tests', 'epw', 'CAN_ON_Toronto.716240_CWEC.epw'),
 TORONTO_PARAM = ('tests', 'parameters', 'initialize_toronto.uwg')
 
 
-def simulate_and_check(chk, precision, month, day, nday, param=SGP_PARAM, epw=SGP_EPW):
+# Building stocks never simulated by the shipped examples: custom reference buildings handed in through
+# ref_bem_vector / ref_sch_vector, built from a DOE archetype (deep copy), with a WATER-cooled condenser
+# (Building.condtype = 'WATER' is a documented value; all 768 DOE buildings are 'AIR').
+# name -> (bld, [(source type, source era, condtype, new type name or None)])
+STOCKS = {
+    'custom-water(largeoffice pst80 0.4) + DOE midrise apartment': (
+        [('largeoffice', 'pst80', 0.4), ('midriseapartment', 'pst80', 0.6)],
+        [('largeoffice', 'pst80', 'WATER', None)]),
+    'custom-water(new type "datacentre" from largeoffice new 0.3) + DOE largeoffice': (
+        [('datacentre', 'new', 0.3), ('largeoffice', 'pst80', 0.7)],
+        [('largeoffice', 'new', 'WATER', 'datacentre')]),
+    'custom-water(hospital new, whole stock)': (
+        [('hospital', 'new', 1.0)], [('hospital', 'new', 'WATER', None)]),
+    'custom-water(largehotel pre80 0.5) + custom-air(medoffice new 0.5)': (
+        [('largehotel', 'pre80', 0.5), ('medoffice', 'new', 0.5)],
+        [('largehotel', 'pre80', 'WATER', None), ('medoffice', 'new', 'AIR', None)]),
+    'custom-air(largeoffice pst80 0.4) + DOE midrise apartment': (
+        [('largeoffice', 'pst80', 0.4), ('midriseapartment', 'pst80', 0.6)],
+        [('largeoffice', 'pst80', 'AIR', None)]),
+}
+
+
+def apply_stock(model, stock):
+    import copy
+    from uwg.utilities import REF_BLDTYPE, REF_BUILTERA, REF_ZONETYPE
+    bld, customs = STOCKS[stock]
+    zi = REF_ZONETYPE.index(model.zone)
+    bems, schs = [], []
+    for (typ, era, cond, newname) in customs:
+        ti, ei = REF_BLDTYPE.index(typ), REF_BUILTERA.index(era)
+        bem = copy.deepcopy(model.refBEM[ti][ei][zi])
+        sch = copy.deepcopy(model.refSchedule[ti][ei][zi])
+        bem.building.condtype = cond
+        if newname:
+            bem.bldtype = newname
+            sch.bldtype = newname
+        bems.append(bem)
+        schs.append(sch)
+    model.bld = bld
+    model.ref_bem_vector, model.ref_sch_vector = bems, schs
+
+
+def simulate_and_check(chk, precision, month, day, nday, param=SGP_PARAM, epw=SGP_EPW, variant=None, stock=None):
+    """variant: header / leap-file variant of s1_util applied to the rural file; stock: key of STOCKS."""
     from uwg import UWG
     import uwg.psychrometrics as up
     psy, hum = up.psychrometrics, up.hum_from_rhum_temp
     epw_in = find_file(*epw)
     param_in = find_file(*param)
     out_dir = tempfile.mkdtemp(prefix='c09-', dir=chk.work())
+    if variant:
+        import s1_util as S
+        epw_in = S.save_epw(S.apply_variant(S.load_epw(epw_in), variant),
+                            os.path.join(out_dir, 'rural_' + os.path.basename(epw_in)))
     bad = 0
     worst = 0.0
 
@@ -399,17 +446,39 @@ def simulate_and_check(chk, precision, month, day, nday, param=SGP_PARAM, epw=SG
             chk.violation('impl-violation', what, case=case, observed=observed, expected=expected)
 
     tag = {'epw_precision': precision, 'month': month, 'day': day, 'nday': nday,
-           'epw': os.path.basename(epw_in), 'param': os.path.basename(param_in)}
+           'epw': os.path.basename(epw[-1]), 'param': os.path.basename(param_in)}
+    if variant:
+        tag['epw_variant'] = variant
+    if stock:
+        tag['stock'] = stock
+    model = None
     try:
         model = UWG.from_param_file(param_in, epw_path=epw_in, new_epw_dir=out_dir, new_epw_name='out.epw')
         model.month, model.day, model.nday = month, day, nday
         model.epw_precision = precision
+        if stock:
+            apply_stock(model, stock)
         with contextlib.redirect_stdout(io.StringIO()):
             model.generate()
             model.simulate()
             model.write_epw()
     except Exception as e:
+        if variant or stock:
+            # a legal rural file / a documented custom building must be simulated; the model's own fail-stop on
+            # such a run is recorded, not decided here
+            chk.notes.append('C09 run %s raised %s: %s' % (tag, type(e).__name__, str(e)[:100]))
+            shutil.rmtree(out_dir, ignore_errors=True)
+            return 0, 0, 0.0
         raise core.Infra('simulation for C09 failed: %s: %s' % (type(e).__name__, e))
+    if stock:
+        chk.measurements.setdefault('custom_stock_runs', []).append({
+            'stock': stock, 'start': [month, day], 'nday': nday,
+            'buildings(type, era, frac, condtype, latWaste at the last step)': [
+                (b.bldtype, b.builtera, b.frac, b.building.condtype, b.building.latWaste) for b in model.BEM]})
+        conds = sorted(set(b.building.condtype for b in model.BEM))
+        want = sorted(set(c[2] for c in STOCKS[stock][1]) | ({'AIR'} if len(STOCKS[stock][0]) > len(STOCKS[stock][1]) else set()))
+        if conds != want:
+            chk.notes.append('C09 stock %s: condenser types simulated %s, intended %s' % (stock, conds, want))
     out_path = os.path.join(out_dir, 'out.epw')
     if not os.path.exists(out_path):
         raise core.Infra('write_epw produced no file at ' + out_path)
@@ -440,6 +509,12 @@ def simulate_and_check(chk, precision, month, day, nday, param=SGP_PARAM, epw=SG
                  'canRHum=%r Tdp=%r' % (ucm.canRHum, ucm.Tdp), 'phi=%r Tdp=%r' % (ref[2], ref[4]))
         # (c) the WRITTEN row: pressure column untouched; dew point text = formatted correlation
         #     value of the rural humidity ratio; written (T, RH, P) imply ratio * rural w
+        want_t = '{0:.{1}f}'.format(ucm.canTemp - 273.15, precision)
+        if wr[6] != want_t or wr[1:4] != rr[1:4]:
+            viol('the result of record n is written to the rural row record n was computed from (row '
+                 'timeInitial + n of the file as read by Weather)', case,
+                 {'stamp': wr[1:4], 'dry bulb': wr[6]}, {'stamp': rr[1:4], 'dry bulb': want_t})
+            continue
         if wr[9] != rr[9]:
             viol('written pressure column unchanged', case, wr[9], rr[9])
         want_tdp = '{0:.{1}f}'.format(ref[4], precision)
@@ -461,6 +536,16 @@ def simulate_and_check(chk, precision, month, day, nday, param=SGP_PARAM, epw=SG
                  'hum(written RH=%s, T=%s, P=%s) in [%.12g, %.12g]' % (wr[8], wr[6], rr[9], lo, hi),
                  'contains ratio*hum(rural RH=%s, T=%s, P=%s) = %.12g' % (rr[8], rr[6], rr[9],
                                                                           target))
+    # rows of hours that were not simulated: their humidity fields must be the rural ones (a result written to
+    # another row than the one it was computed from shows here and in (c) above)
+    for i in range(8, min(len(rural), len(written))):
+        if not (first <= i < first + n_rec) and (written[i][6:10] != rural[i][6:10] or written[i][1:4] != rural[i][1:4]):
+            viol('rows outside the simulated window keep their rural dry bulb / dew point / RH / pressure',
+                 dict(tag, file_row=i, stamp=rural[i][1:4], window_rows=[first, first + n_rec - 1]),
+                 written[i][6:10], rural[i][6:10])
+            break
+    if len(written) != len(rural):
+        viol('written file has as many rows as the rural file', dict(tag), len(written), len(rural))
     shutil.rmtree(out_dir, ignore_errors=True)
     return n_rec, bad, worst
 
@@ -488,28 +573,53 @@ def run(chk):
     with open(sat, 'w', newline='') as f_:
         _csv.writer(f_, lineterminator='\n').writerows(rows_)
     windows += [(1, 2, 1, 1, SGP_PARAM, (sat,)), (4, 12, 8, 1, SGP_PARAM, (sat,))]
+    windows = [w + (None, None) for w in windows]
+    # legal but never-varied rural files: 8784-row leap files (the model is a 365-day clock reading by row offset: what
+    # is demanded is that the rows written are the rows read and that moisture is conserved row by row) with windows
+    # after, across and before 29 Feb; header variants on 8760-row files
+    water = [k for k in STOCKS if 'water' in k]
+    windows += [(4, 3, 1, 2, SGP_PARAM, SGP_EPW, 'leap8784', None),
+                (1, 2, 27, 3, SGP_PARAM, SGP_EPW, 'leap8784+weekday-Monday', None),
+                (4, rnd.randint(3, 12), rnd.randint(1, 28), 1, SGP_PARAM, SGP_EPW,
+                 rnd.choice(['leapflag-Yes', 'actual-year-header', 'dst-3/8-11/1+holidays-listed']), None),
+                # custom reference buildings with a WATER-cooled condenser, in hours with cooling (Singapore)
+                (4, rnd.randint(3, 10), rnd.randint(1, 28), 1, SGP_PARAM, SGP_EPW, None, water[0]),
+                (4, rnd.randint(1, 12), rnd.randint(1, 28), 1, SGP_PARAM, SGP_EPW, None, rnd.choice(water[1:]))]
     if chk.tier == 'thorough':
-        windows += [(1, 7, 15, 3, SGP_PARAM, SGP_EPW), (4, 12, 29, 3, SGP_PARAM, SGP_EPW),
-                    (2, 3, 30, 2, TORONTO_PARAM, OTHER_EPW[0])]
+        windows += [(1, 7, 15, 3, SGP_PARAM, SGP_EPW, None, None), (4, 12, 29, 3, SGP_PARAM, SGP_EPW, None, None),
+                    (2, 3, 30, 2, TORONTO_PARAM, OTHER_EPW[0], None, None)]
         for e in OTHER_EPW:
-            windows += [(rnd.choice([1, 4]), rnd.randint(1, 12), rnd.randint(1, 26), 2, SGP_PARAM, e)
+            windows += [(rnd.choice([1, 4]), rnd.randint(1, 12), rnd.randint(1, 26), 2, SGP_PARAM, e, None, None)
                         for _ in range(2)]
+        for k in STOCKS:
+            windows.append((4, rnd.randint(1, 12), rnd.randint(1, 27), 2, SGP_PARAM, SGP_EPW, None, k))
+        windows += [(4, rnd.randint(3, 12), rnd.randint(1, 27), 2, SGP_PARAM, e,
+                     rnd.choice(['leap8784', 'leap8784noflag', 'leap8784+actual-year-header']), None)
+                    for e in [SGP_EPW] + OTHER_EPW[2:]]
+        windows.append((3, 7, 1, 2, SGP_PARAM, SGP_EPW, 'leap8784', water[0]))
     tot = totbad = 0
-    for (prec, month, day, nday, prm, epw) in windows:
-        nrec, bad, worst = simulate_and_check(chk, prec, month, day, nday, prm, epw)
+    for (prec, month, day, nday, prm, epw, variant, stock) in windows:
+        nrec, bad, worst = simulate_and_check(chk, prec, month, day, nday, prm, epw, variant, stock)
         tot += nrec
         totbad += bad
         key = 'written_rel_dev_max_precision_%d' % prec
         chk.measurements[key] = max(worst, chk.measurements.get(key, 0.0))
-    wtxt = '; '.join('%s/%s p=%d %02d-%02d +%dd' % (w[4][-1].split('.')[0].replace('initialize_', ''),
-                                                  w[5][-1][:11], w[0], w[1], w[2], w[3])
+    wtxt = '; '.join('%s/%s p=%d %02d-%02d +%dd%s%s' % (w[4][-1].split('.')[0].replace('initialize_', ''),
+                                                      os.path.basename(w[5][-1])[:11], w[0], w[1], w[2], w[3],
+                                                      ' file variant ' + w[6] if w[6] else '',
+                                                      ' stock ' + w[7] if w[7] else '')
                      for w in windows)
     chk.direct('simulation(written rows vs rural rows)', tot, tot,
                'real generate/simulate/write_epw (param/epw precision start +days: %s): per record canHum bit-identical to staHum of its '
                'row, recorded RH/Tdp bit-identical to psychrometrics(canTemp, canHum, pres), written '
                'dew-point text identical to the formatted correlation value, pressure column '
                'unchanged, and ratio*w_rural inside [hum(RH-d,T-d,P), hum(RH+d,T+d,P)] for the written '
-               'RH, T with d = half a unit of the last decimal' % (wtxt,),
+               'RH, T with d = half a unit of the last decimal; rows outside the window keep their rural cells. '
+               'File variants: 8784-row leap files (windows after / across 28 Feb; only row-by-row consistency is '
+               'demanded: the row written is the row read), leap flag / actual-year / DST+holidays headers. Stocks: '
+               'custom reference buildings made from DOE archetypes through ref_bem_vector/ref_sch_vector with '
+               'condtype WATER (alone, beside DOE buildings, under a new type name, beside a custom AIR building)'
+               % (wtxt,),
                mismatches=totbad, branches={'records': tot, 'windows': len(windows)})
     chk.assumptions.append(
         'C09: libm exp/log/pow are interpreted by Real.exp/Real.log/rpow in the theorems and by the '
@@ -537,7 +647,7 @@ def replay(chk, path):
         prm = next((q for q in (SGP_PARAM, TORONTO_PARAM) if q[-1] == case.get('param')), SGP_PARAM)
         epw = next((q for q in [SGP_EPW] + OTHER_EPW if q[-1] == case.get('epw')), SGP_EPW)
         simulate_and_check(chk, case['epw_precision'], case['month'], case['day'], case['nday'],
-                           prm, epw)
+                           prm, epw, case.get('epw_variant'), case.get('stock'))
     elif isinstance(case, dict) and 'tie' in case:
         exact_tie(chk)
         if chk.corr_problems:
